@@ -3,6 +3,7 @@ import Tw.Gen.SnapMgr
 import Tw.Proofs.SnapMgr
 import Tw.Proofs.SnapMgrSys
 import Tw.Proofs.SnapMgrInst
+import Tw.Proofs.SnapChain
 
 /-!
 # C13 — client and server snapshot state never diverge silently
@@ -23,11 +24,13 @@ open Tw.SnapXfer Tw.SnapMgr
 
 /-- Tie to the source: `MAX_STORED_SNAPSHOT`, the literals of `Storage::add_delta`
 (`unwrap_or(-1)`, `delta_tick >= 0`, `delta_tick != -1`) and `set_delta_tick` (`tick < 0`,
-`tick != -1`), and the base tick the sender glue passes to `delta_chunks`. -/
+`tick != -1`), the base tick the sender glue passes to `delta_chunks`, and `new_builder` recycling a
+copy of the newest stored snapshot (repair of D25). -/
 theorem tie_storage :
     maxStored = 100 ∧ Tw.Gen.SnapMgr.lits_add_delta = [1, 0, 1] ∧
       Tw.Gen.SnapMgr.lits_set_delta_tick = [0, 1] ∧
-      Tw.Gen.SnapMgr.glue_base_tick_or_minus_one = true := by decide
+      Tw.Gen.SnapMgr.glue_base_tick_or_minus_one = true ∧
+      Tw.Gen.SnapMgr.new_builder_continues_newest = true := by decide
 
 /-- **C13, safety.**  For every lawful snapshot layer, every sender history whose ticks are `i32`s
 and strictly increasing, and every delivery schedule of snapshot messages and acknowledgements
@@ -174,6 +177,19 @@ theorem d25_witness :
       Tw.Snap.createDelta a.raw b.raw = none := by
   refine ⟨_, _, rfl, rfl, ?_⟩
   decide
+
+/-- **D25 repaired, in the concrete snapshot model.**  Since the repair every builder the sender
+uses continues the snapshot built before it (`Step.recycle`), so the snapshots the sender stores lie
+on one chain that starts with `Builder::new()`.  If the application gives every item the size of
+its type (`Step.add`; true of every protocol object), any earlier snapshot `a` and later snapshot `b`
+of the chain have agreeing raw item sizes — a UUID type keeps its raw number along the chain — and
+`Delta::create(a, b)` does not panic.  (`d25_witness` shows that this fails for unrelated fresh
+builders.) -/
+theorem recycled_builder_chain_never_refuses {size : Tw.Snap.TypeId → Nat} {a b : Tw.Snap.Builder}
+    (h0 : Tw.Snap.Chain size Tw.Snap.Builder.new a) (h1 : Tw.Snap.Chain size a b) :
+    Tw.Snap.SizesAgree a.snap.raw b.snap.raw ∧
+      ∃ d, Tw.Snap.createDelta a.snap.raw b.snap.raw = some d :=
+  Tw.Snap.chain_create h0 h1
 
 -- non-vacuity: a lawful snapshot layer exists (snapshot = byte string, delta = the target itself),
 -- and histories with increasing ticks satisfy `sendsOk`
